@@ -17,11 +17,15 @@ Inductive rtok :=
 | RClose (b : br) (opt : bool)   (* ) ] ]? } : CheckForPostTraverse = true  *)
 | RTraverseArrayCollect.         (* .[      : CheckForPostTraverse = false *)
 
-Definition type_is (name : string) (o : op) : bool :=
-  str_eqb (o_type o) (o_type (table_op name [])).
+(* tokenIsOpType(token, xOpType) *)
+Definition create_map_type : str := o_type (table_op "createMapOpType" []).
+Definition assign_type : str := o_type (table_op "assignOpType" []).
+Definition traverse_path_type : str := o_type (table_op "traversePathOpType" []).
 
-Definition rtok_is_op (name : string) (t : rtok) : bool :=
-  match t with ROp o _ _ => type_is name o | _ => false end.
+Definition type_is (ty : str) (o : op) : bool := str_eqb (o_type o) ty.
+
+Definition rtok_is_op (ty : str) (t : rtok) : bool :=
+  match t with ROp o _ _ => type_is ty o | _ => false end.
 
 Definition rtok_cpt (t : rtok) : bool :=
   match t with
@@ -50,7 +54,7 @@ Definition handle_token (prev : option rtok) (cur : rtok) (next : option rtok) :
     end in
   (* 2. slice without a first number: `.[` `:`  gets an implied 0 *)
   let pre2 :=
-    if rtok_is_op "createMapOpType" cur1 then
+    if rtok_is_op create_map_type cur1 then
       match prev with
       | Some RTraverseArrayCollect => [TOp zero_value_op]
       | _ => []
@@ -60,7 +64,7 @@ Definition handle_token (prev : option rtok) (cur : rtok) (next : option rtok) :
   let '(cur3, skip) :=
     match cur1, next with
     | ROp o (Some a) c, Some (ROp n _ _) =>
-        if type_is "assignOpType" n then (ROp (set_val a (o_val n)) (Some a) c, true) else (cur1, false)
+        if type_is assign_type n then (ROp (set_val a (o_val n)) (Some a) c, true) else (cur1, false)
     | _, _ => (cur1, false)
     end in
   (* 4. the token itself *)
@@ -73,7 +77,7 @@ Definition handle_token (prev : option rtok) (cur : rtok) (next : option rtok) :
     end in
   (* 5. slice without a second number: `:` `]` gets an implied length *)
   let post5 :=
-    if rtok_is_op "createMapOpType" cur3 then
+    if rtok_is_op create_map_type cur3 then
       match next with
       | Some (RClose BCollect _) => [TOp length_inserted]
       | _ => []
@@ -90,7 +94,7 @@ Definition handle_token (prev : option rtok) (cur : rtok) (next : option rtok) :
   let post7 :=
     match next with
     | Some n =>
-        if rtok_cpt cur3 && (rtok_is_op "traversePathOpType" n ||
+        if rtok_cpt cur3 && (rtok_is_op traverse_path_type n ||
                              match n with RTraverseArrayCollect => true | _ => false end)
         then [TOp short_pipe_inserted] else []
     | None => []
